@@ -233,6 +233,19 @@ def handler_ctx(prog, dctx, arm):
     hb = prog.body(t.get("rkey"))
     idx = len(dctx.body.blocks[bb]["stmts"])
     params = {i + 1: dctx.T.operand(a, bb, idx) for i, a in enumerate(t["args"])}
+    v_, enum_ = arm.get("variant"), arm.get("enum")
+    if v_ and enum_:
+        # an argument the dispatcher computes from the message as a whole, in front of the match
+        # (`msg.payment_denom(&config).map(|d| must_pay(&info, d)).transpose()?.unwrap_or_default()`): its value
+        # for THIS arm is the helper evaluated where the message is of the arm's variant
+        is_msg_ = lambda x: x[0] == "param" and len(x) > 3 and str(x[3]).split("<")[0].endswith(enum_)
+        asm_ = ((is_msg_, ("variant", v_)),)
+        for i_, a_ in list(params.items()):
+            if any(s_[0] == "call" and prog.body(s_[1]) is not None and any(is_msg_(y_) for y_ in s_[2]) for s_ in subterms(a_)):
+                from engine.analysis import resolve_terms as _rt_h, contains
+                r_ = _rt_h(prog, a_, 3, None, asm_)
+                if not contains(r_, lambda s_: s_[0] in ("cycle", "undef")):
+                    params[i_] = r_
     # settled: branches decided by the arguments the dispatcher passes (a mode flag, a constant)
     # are pruned, so a handler shared by several variants is analysed once per variant
     return Ctx(hb, params=params).settle()
